@@ -648,10 +648,6 @@ fn tcase_strategy() -> impl Strategy<Value = TCase> {
 }
 
 pub fn run(ctx: &Ctx) -> i32 {
-    let _ = check(&Case {
-        ops: vec![Op::New(0), Op::Clone(0), Op::Take(0), Op::Transpose(0, true)],
-        drop_order: vec![],
-    });
     ctx.run("single-thread", ctx.n(30_000, 500_000), case_strategy(), check);
     ctx.run("threaded", ctx.n(1_500, 40_000), tcase_strategy(), check_threaded);
     ctx.finish(
